@@ -278,6 +278,26 @@ def run(prog, ctx):
     ctx.check(ok, "C06.D4", R.key_of(rp, "same-increment"), rp.loc(),
               "the same positive deficit raises lmax[d] and every object's coarsening level of dimension d, under one guard",
               "lmax and the objects' coarsening levels are not raised by the same value under the same `> 0` guard: " + why)
+    # the coarsening update runs for every dimension on every path (not only under an option such as rebalancing)
+    if len(ups) == 1:
+        un = R.cfg_node(rp, ups[0])
+        guards = [g for (g, gn) in R.dominating_guards(rp, un, tmr) if gn.kind == "test"]
+        loops = [l for l in un.loops if isinstance(l, ast.For)]
+        full = bool(loops) and tmr.term(loops[-1].iter) == ("call", ("n", "range"), (("a", ("n", "self"), "dim"),), ()) and len(loops) == 1
+        head = crp.node_of(loops[-1]) if loops else None
+        always = head is not None and crp.post_dominates(head, crp.entry)
+        ctx.check(not guards and full and always, "C06.D4", R.key_of(rp, "update-every-dimension"), rp.loc(ups[0]),
+                  "the coarsening / lmax update runs unconditionally for every dimension after every step",
+                  "update_coarsening_values is %s: with that option off lmax is never raised and coarsening levels are never recomputed"
+                  % ("guarded by %s" % [show(g) for g in guards] if guards else "not executed for every dimension on every path"))
+    rl = prog.func(SD + ".raise_lmax")
+    ctx.touch(rl)
+    tml = Terms(rl.node, max_depth=0)
+    okrl = any(s.kind == "elem_aug" and isinstance(s.stmt.op, ast.Add) and tml.term(s.stmt.target.slice) == ("n", rl.params[1])
+               and tml.term(s.value) == ("n", rl.params[2]) for s in R.self_stores(rl, "lmax"))
+    ctx.check(okrl, "C06.D4", R.key_of(rl, "raises-by-deficit"), rl.loc(), "raise_lmax adds exactly the given value to lmax[d]",
+              "raise_lmax does not add exactly `%s` to self.lmax[%s]: lmax and the coarsening levels (raised by the true deficit) drift apart"
+              % (rl.params[2], rl.params[1]))
     # update() adds exactly the increment
     upd = prog.func(RO + ".update")
     ctx.touch(upd)
@@ -313,6 +333,34 @@ def run(prog, ctx):
     want = ("op", "Mult", tuple(sorted((("a", ("n", "self"), "benefit_max"), ("a", ("n", "self"), "margin")), key=repr)))
     ctx.check(t == want, "C06.D5", R.key_of(br, "tolerance"), br.loc(gn_calls[0]),
               "the selection threshold is benefit_max * margin", "the selection threshold is %s, not self.benefit_max * self.margin" % show(t))
+    # the margin is the caller's value whenever one is given (0 is a legal margin: "split everything")
+    nm = 0
+    for st_ in [prog.cls(S.BASE)] + S.strategies(prog):
+        for mname, f in st_.methods.items():
+            for s in R.self_stores(f, "margin"):
+                nm += 1
+                ctx.touch(f)
+                v = s.value
+                tmm = Terms(f.node, max_depth=0)
+                guards = [g for (g, gn) in R.dominating_guards(f, R.cfg_node(f, s.stmt), tmm) if gn.kind == "test"]
+                has_param = "margin" in f.params
+                ok = False
+                why = "`%s`" % src(s.stmt)
+                if isinstance(v, ast.Constant) and isinstance(v.value, (int, float)):
+                    ok = (not has_param) or ("cmp", "Is", ("n", "margin"), ("c", "None")) in guards
+                    why = "the default %r is stored although a margin parameter exists and was not tested for None" % v.value
+                elif isinstance(v, ast.Name) and v.id == "margin":
+                    ok = not guards or guards == [("cmp", "IsNot", ("n", "margin"), ("c", "None"))]
+                    why = "the margin parameter is stored only under %s" % [show(g) for g in guards]
+                elif isinstance(v, ast.IfExp):
+                    t = tmm.term(v.test)
+                    ok = t in (("cmp", "IsNot", ("n", "margin"), ("c", "None")), ("cmp", "Is", ("n", "margin"), ("c", "None")))
+                    why = "the choice between the caller's margin and the default tests %s, not `margin is None`" % show(t)
+                else:
+                    why = "`%s` does not take the caller's margin as given (a truthiness test treats margin=0 as missing)" % src(s.stmt)
+                ctx.check(ok, "C06.D5", R.key_of(f, "margin-as-given#%d" % nm), f.loc(s.stmt),
+                          "the margin is the caller's value whenever it is not None", "selection margin: " + why)
+    ctx.floor("C06.D5.margin", nm, 2, "stores of self.margin in the strategies")
     # loop until nothing is found
     cb = cfg_of(br)
     loops = [l for l in walk_local(br.node) if isinstance(l, ast.While)]
